@@ -13,13 +13,14 @@ OBLIGATIONS = [
     "PgmVerif.C04_den_normalize", "PgmVerif.C04_axis_order_irrelevant",
     "PgmVerif.C04_product_comm", "PgmVerif.C04_product_assoc", "PgmVerif.C04_wf_product",
     "PgmVerif.C04_wf_marginalize", "PgmVerif.unravel_ravel", "PgmVerif.ravel_unravel",
+    "PgmVerif.C04_scalar_ops", "PgmVerif.C04_scalar_neutral",
 ]
 PARTIAL = ["operand immutability and aliasing are heap facts: decided by snapshots in the correspondence, not by a theorem",
            "the documented float tolerance of __eq__ (atol 1e-8, numpy default rtol) is compared differentially"]
 RULE = ("random factors over a pool of 2-5 named variables (cards 1-4, label kinds int/str/permuted/shifted/tuple), "
         "every operand in a random axis order; non-trivial = result scope non-empty or operands share/nest variables; "
         "distinct = distinct case JSON"
-        " Also: scopes of 9-11 variables, magnitudes 1e-30..1e9, factor_divide / factor_product functions, FactorDict arithmetic.")
+        " Also: scopes of 9-11 variables, magnitudes 1e-30..1e9, factor_divide / factor_product functions, FactorDict arithmetic, neutral scalars (0, 1, 0.0, 1.0) in method and operator spellings followed by an in-place step on the result.")
 ASSUMPTIONS = ["numpy einsum / broadcasting are exercised, not verified"]
 BUDGET_QUICK = 60
 
@@ -539,7 +540,7 @@ STREAMS = [
 
 LEVEL_TEXT = ("Kernel-checked theorems (Props/C04.lean) state, for every well-formed table, axis order and in-range assignment, "
               "that product/sum/divide/marginalise/maximise/reduce/normalise of the Lean model have exactly the textbook pointwise "
-              "meaning, that results are well-formed over the right scope, and that operand axis order is irrelevant; the model is tied "
+              "meaning (a scalar operand is the factor over no variables; 1 and 0 are neutral), that results are well-formed over the right scope, and that operand axis order is irrelevant; the model is tied "
               "to pgmpy's DiscreteFactor on every run by differential correspondence at every named assignment (6 hash seeds). "
               "Operand immutability, aliasing and the float tolerance of __eq__ are decided by the correspondence only (partial).")
 LEVEL_NOTE = ("Trusted: Lean kernel + propext/Classical.choice/Quot.sound; hand-written model; correspondence harness and generators; "
